@@ -18,7 +18,8 @@
 (* callback sees on registration when several entries are cached, how unknown   *)
 (* error classes are represented (any generic error), frappy's "Class: text"    *)
 (* convention in error texts (both readings allowed), whether a request waiting *)
-(* for a reply whose data part is malformed is released.                        *)
+(* for a reply whose data part is malformed, or which names a command, is       *)
+(* released; nodeStateChange / descriptiveDataChange callbacks.                 *)
 EXTENDS Naturals, Sequences, FiniteSets, TLC
 
 CONSTANTS Mods,       \* module names that may occur in descriptions
